@@ -319,6 +319,29 @@ func rtRun(lw *lineWriter, vals []rtValue, pcnt *int, pnontriv *int, psamples *[
 				}
 			}
 		}
+		// siblings: DIFFERENT values of the same type (blanks around a string, one more character / digit elsewhere); a value
+		// that is stored as the text of another value cannot be read back as itself
+		sibs := []string{}
+		switch v.typ {
+		case "string":
+			sibs = []string{" " + v.text, v.text + " ", "\t" + v.text, v.text + "\n", "  " + v.text + "  "}
+		case "account":
+			sibs = []string{v.text + "x", v.text + ":x"}
+		case "asset":
+			sibs = []string{v.text + "0"}
+		case "number", "monetary":
+			sibs = []string{v.text + "1"}
+		}
+		sibam := []any{}
+		if st1 == "ok" {
+			for _, sb := range sibs {
+				rs, sts := runSimple(s1, map[string]string{"v": sb}, nil)
+				if sts == "ok" {
+					sibam = append(sibam, rs.AccountsMetadata["m"]["k"])
+				}
+			}
+		}
+		line["sibam"] = sibam
 		lw.write(line)
 		if len(v.text) > 19 || strings.ContainsAny(v.text, "é漢\"\\% ") {
 			nontriv++
